@@ -564,6 +564,22 @@ def discharge_auto(ctx, site):
                             return "A2", "guard len(base) %s %d covers [len-%d]" % (op, bv, j)
                         if a[0] == "len" and same(a[1], base) and op == "Gt" and j == 1:
                             return "A2", "guard len(base) > (unsigned) covers [len-1]"
+        # the indexed collection is the payload of an Option / Result assembled on several paths
+        # (`o.filter(|x| !x.v.is_empty())`, `if c { Some(x) } else { None }`): the length guard may hold
+        # where each Some / Ok alternative is built instead of at the index itself
+        if ix is not None and ev(ctx, ix) is not None and fa.blocks[bb].term["k"] == "call" and fa.blocks[bb].term["args"]:
+            iv_ = ev(ctx, ix)
+            alts = guarded_values(fa, fa.blocks[bb].term["args"][0])
+            live = [(t_, db_) for t_, db_ in alts if db_ is not None and not contains(t_, lambda q: isinstance(q, tuple) and q and q[0] == "agg" and q[2] in ("None", "Err"))]
+            if len(alts) >= 2 and live:
+                def guarded_at(db_):
+                    for op, a, b in known_relations(ctx, fa, db_):
+                        bv = ev(ctx, b) if b is not None else None
+                        if a is not None and a[0] == "len" and same(a[1], base) and bv is not None and ((op == "Gt" and bv >= iv_) or (op == "Ge" and bv > iv_)):
+                            return True
+                    return False
+                if all(guarded_at(db_) for _, db_ in live):
+                    return "A2", "every Some/Ok alternative of the indexed value is built under len(base) > %d" % iv_
         # constant bounds inside a buffer of constant length
         if ix is not None and is_agg(ix) and ix[1].split("::")[-1] in ("RangeTo", "RangeFrom", "Range", "RangeInclusive", "RangeToInclusive"):
             L = const_len(ctx, fa, base)
